@@ -457,6 +457,33 @@ func main() {
 			} else if want != nil && !refgeom.Equal(layer.Features[0].Geometry, want) {
 				c.Failf("mvt-layer-clip", "Layer.Clip(%v) polygon feature = %v, want %v", box, layer.Features[0].Geometry, want)
 			}
+			// a longer layer, with dropped features in front of, between and behind the ones that stay: every feature
+			// is clipped on its own, wherever it stands (in particular right after one or two dropped ones)
+			{
+				members := []orb.Geometry{orb.Point{9, 9}, poly.Clone(), orb.Point{-9, -9}, orb.Point{8, 8}, ls.Clone(), orb.LineString{{4, 0}, {0, 4}}, orb.Point{9, 0}, orb.MultiPoint{{2, 2}, {7, 7}}, orb.Point{-1, -1}}
+				long := &mvt.Layer{Name: "long"}
+				var wantG []orb.Geometry
+				for i, m := range members {
+					f := geojson.NewFeature(orb.Clone(m))
+					f.ID = i
+					long.Features = append(long.Features, f)
+					if g := clip.Geometry(box, orb.Clone(m)); g != nil {
+						wantG = append(wantG, g)
+					}
+				}
+				long.Clip(box)
+				same := len(long.Features) == len(wantG)
+				for i := 0; same && i < len(wantG); i++ {
+					same = refgeom.Equal(long.Features[i].Geometry, wantG[i])
+				}
+				if !same {
+					var gotG []orb.Geometry
+					for _, f := range long.Features {
+						gotG = append(gotG, f.Geometry)
+					}
+					c.Failf("mvt-layer-clip", "Layer.Clip(%v) of a 9-feature layer = %v, each feature clipped on its own gives %v", box, gotG, wantG)
+				}
+			}
 			if ro != nil && rh != nil {
 				c.NonTrivial()
 			}
